@@ -197,6 +197,8 @@ type ruleSet struct {
 	mem bool
 	// firstTouch: a concurrent round precedes the baseline (sets whose engines load quickly)
 	firstTouch bool
+	// ns: goroutine counts of this set's rounds (nil: the -ns flag)
+	ns []int
 }
 
 var ruleSets = []ruleSet{
@@ -399,7 +401,7 @@ func checkTargets(dir string, scale int) ([]*target, error) {
 	ruleSets = append(ruleSets, ruleSet{name: "natives", files: []string{"natives.go"}, text: map[string]string{"natives.go": nativesOut.rules},
 		allZoo: true, only: "mt", freshBase: true, perG: 4, firstTouch: true})
 	ruleSets = append(ruleSets, ruleSet{name: "natives-std", files: []string{"nativesstd.go"}, text: map[string]string{"nativesstd.go": nativesOut.rulesStd},
-		allZoo: true, only: "mt", perG: 3, firstTouch: true})
+		allZoo: true, only: "mt", perG: 3, firstTouch: true, ns: []int{16}})
 	err = checkMemTargets(dir, fset, imp, nativesOut.nDo, nativesOut.nFlt)
 	return base, err
 }
@@ -605,6 +607,8 @@ func explore(enc0 *json.Encoder, targets []*target, sets []int, ns []int, seed i
 	deadline := time.Now().Add(budget)
 	fset := targets[0].t.Fset
 	var wg sync.WaitGroup
+	var keptMu sync.Mutex
+	var kept []keptEngine
 	for _, si := range sets {
 		wg.Add(1)
 		go func(si int) {
@@ -727,6 +731,11 @@ func explore(enc0 *json.Encoder, targets []*target, sets []int, ns []int, seed i
 					nm++
 				}
 			}
+			if rs.firstTouch {
+				keptMu.Lock()
+				kept = append(kept, keptEngine{rs, eA})
+				keptMu.Unlock()
+			}
 			stA := ruleguard.NewRunnerState(eA)
 			for i := len(targets) - 1; i >= 0; i-- {
 				check("baseline", eA, stA, targets[i])
@@ -741,6 +750,10 @@ func explore(enc0 *json.Encoder, targets []*target, sets []int, ns []int, seed i
 						check("baseline-fresh", e, nil, t)
 					}
 				}
+			}
+			ns := ns
+			if rs.ns != nil {
+				ns = rs.ns
 			}
 			for round := 0; ; round++ {
 				for _, n := range ns {
@@ -781,6 +794,42 @@ func explore(enc0 *json.Encoder, targets []*target, sets []int, ns []int, seed i
 		}(si)
 	}
 	wg.Wait()
+	// the files are saved: the stale copies on disk are replaced by the text that was parsed. A Run reads its file when
+	// it runs -- an engine that has checked the file before the save answers like a fresh engine (lone Run) after it
+	for _, t := range memTargets {
+		if memStale[t.name] {
+			if err := os.WriteFile(t.t.Path, t.t.Src, 0o644); err != nil {
+				enc.Encode(map[string]interface{}{"k": "error", "what": "save: " + err.Error()})
+				return
+			}
+		}
+	}
+	for _, k := range kept {
+		for _, t := range memTargets {
+			if !memStale[t.name] {
+				continue
+			}
+			e, err := loadEngine(k.rs, fset)
+			if err != nil {
+				continue
+			}
+			want := runOnce(e, t.t, nil, nil)
+			got := runOnce(k.e, t.t, nil, nil)
+			agree := reflect.DeepEqual(want, got)
+			m := map[string]interface{}{"k": "baseline", "ruleset": k.rs.name, "file": t.name, "agree": agree,
+				"reports": len(want.Reports), "panic": want.Panic, "order": "after the file was saved (the engine checked the stale copy before)"}
+			if !agree {
+				m["other"] = got
+				m["expected"] = want
+			}
+			enc.Encode(m)
+		}
+	}
+}
+
+type keptEngine struct {
+	rs ruleSet
+	e  *ruleguard.Engine
 }
 
 // pendingRun: a run of a first-touch round, judged once the baseline exists
